@@ -293,7 +293,7 @@ def run(ctx):
                        'reverse IAST, selectivity and VLE helpers. Non-trivial = the call returned and its result was re-derived.')
     ctx.cov['calls_and_no_returns_per_component_count'] = {str(k): v for k, v in per_class.items()}
     for ncomp, (n_ev, n_nr) in per_class.items():
-        if n_nr > 0.5 * n_ev and not ctx.violations:
+        if n_nr > 0.5 * n_ev:
             raise core.HarnessError(f'vacuous for {ncomp}-component mixtures: {n_nr} of {n_ev} IAST calls did not return')
     if nr > 0.5 * ctx.cov['evaluations']:
         raise core.HarnessError(f'vacuous: {nr} of {ctx.cov["evaluations"]} IAST calls did not return')
